@@ -80,6 +80,10 @@ class IterTable:
         self.entries: List[Tuple[int, H.Ctor]] = []
         self.methods: Dict[str, dict] = {}
         for imp in g.items:
+            if imp["item"] == "fn" and imp.get("body"):
+                # free helper fn of the derive (e.g. inside a `const _: () = { .. }` wrapper)
+                self.methods.setdefault(imp["name"], imp)
+                continue
             if imp["item"] != "impl":
                 continue
             for a in imp.get("assoc", []):
@@ -151,9 +155,31 @@ class IterTable:
             if not f:
                 continue
             lits = []
-            for n in H.walk(f["body"]["tree"]):
+            # the method and the derive's own helper fns it calls (bounded)
+            bodies = [f["body"]["tree"]]
+            by_def = {m.get("def"): m for m in self.methods.values() if m.get("def")}
+            seen_defs = {f.get("def")}
+            for _round in range(3):
+                for b_ in list(bodies):
+                    for n in H.walk(b_):
+                        d_ = None
+                        if n.get("k") == "mcall":
+                            d_ = n.get("impl_def") or n.get("def")
+                        elif n.get("k") == "call":
+                            fp_ = H.strip(n.get("f"))
+                            d_ = (fp_.get("impl_def") or fp_.get("def")) if isinstance(fp_, dict) else None
+                        if d_ in by_def and d_ not in seen_defs and by_def[d_].get("name") not in ("nth", "next", "next_back", "size_hint", "len", "get"):
+                            seen_defs.add(d_)
+                            bodies.append(by_def[d_]["body"]["tree"])
+            for n in (x for b_ in bodies for x in H.walk(b_)):
                 if n.get("k") == "lit" and n.get("ty") == "int":
                     lits.append(int(n["v"]))
+                elif n.get("k") == "path" and str(n.get("dk", "")).startswith("Const") and n.get("value") is not None:
+                    # a named constant of the derive's own output (`const VARIANT_COUNT: usize = N;`)
+                    try:
+                        lits.append(int(n["value"]))
+                    except (TypeError, ValueError):
+                        pass
             out[name] = lits
         return out
 
